@@ -97,7 +97,7 @@ func run(c Case) (res ev.Result) {
 	for ti, evs := range c.Tracks {
 		var tr smf.Track
 		var abs int64
-		if ti == 0 {
+		if ti == 0 && c.USPQ0 != 0 {
 			tr.Add(0, []byte{0xFF, 0x51, 0x03, byte(c.USPQ0 >> 16), byte(c.USPQ0 >> 8), byte(c.USPQ0)})
 			changes = append(changes, tempo.Change{AbsTick: 0, USPQ: int64(c.USPQ0)})
 		}
@@ -336,11 +336,18 @@ func genCase(t *rapid.T) Case {
 	c.Res = 960
 	// one tick lasts 1..50 microseconds
 	c.USPQ0 = uint32(rapid.IntRange(960, 48000).Draw(t, "uspq0"))
+	tickUS := int64(c.USPQ0)
+	if rapid.IntRange(0, 4).Draw(t, "noInitialTempo?") == 0 {
+		// no tempo event at tick 0: the file starts at the default 120 BPM (one tick = 520 us)
+		// and the only tempo events are later ones (if any)
+		c.USPQ0 = 0
+		tickUS = 500000
+	}
 	ntr := rapid.SampledFrom([]int{1, 2, 2, 3, 3, 4, 5}).Draw(t, "nTracks")
 	// a small set of ticks that recur in all tracks, so that the concatenation of the tracks is
 	// not already ordered by time and many events share a tick
 	nticks := rapid.IntRange(1, 6).Draw(t, "nSharedTicks")
-	budget := int64(20000 * 960 / int64(c.USPQ0)) // about 20 ms of ticks
+	budget := int64(20000 * 960 / tickUS) // about 20 ms of ticks
 	if budget < 10 {
 		budget = 10
 	}
@@ -401,7 +408,7 @@ func genCase(t *rapid.T) Case {
 }
 
 var play = ev.NewCheck("C12", "playback",
-	"rapid: format-1 files with 1..5 tracks; 1..6 grid ticks recur in every track with 0..14 events each (so ticks are shared within and across tracks and the concatenation of the tracks is not ordered by time), off-grid notes, metas, sysex and tempo changes sprinkled in; resolution 960 with tempi making one tick 1..50 us, whole file <= ~25 ms; channel messages unique (id in channel/key/velocity); Play(out) or MultiPlay with explicit, default (-1) and missing port mappings; optional track selection; read with ReadTracksFrom or (one case of four) from a temporary file with ReadTracks; in one case of five the same TracksReader is played a second time and both runs are checked; oracle on recording fake out ports (instant = time.Since(start) inside Send): every channel message of a selected, mapped track exactly once on its port, no meta event ever, per-track send order == file order, global order non-decreasing in scheduled time (exact tempo-map integral), no send before its scheduled time; sysex filtered from the comparison; non-trivial = >= 2 selected tracks, > 12 messages and a tick shared by >= 2 events of one track and by another track; distinct by case hash",
+	"rapid: format-1 files with 1..5 tracks; 1..6 grid ticks recur in every track with 0..14 events each (so ticks are shared within and across tracks and the concatenation of the tracks is not ordered by time), off-grid notes, metas, sysex and tempo changes sprinkled in; resolution 960 with tempi making one tick 1..50 us (in one case of five no tempo event at tick 0, i.e. 120 BPM until the first later tempo event), whole file <= ~25 ms; channel messages unique (id in channel/key/velocity); Play(out) or MultiPlay with explicit, default (-1) and missing port mappings; optional track selection; read with ReadTracksFrom or (one case of four) from a temporary file with ReadTracks; in one case of five the same TracksReader is played a second time and both runs are checked; oracle on recording fake out ports (instant = time.Since(start) inside Send): every channel message of a selected, mapped track exactly once on its port, no meta event ever, per-track send order == file order, global order non-decreasing in scheduled time (exact tempo-map integral), no send before its scheduled time; sysex filtered from the comparison; non-trivial = >= 2 selected tracks, > 12 messages and a tick shared by >= 2 events of one track and by another track; distinct by case hash",
 	genCase, run)
 
 func TestPropPlayback(t *testing.T) { play.Rapid(t, 150, 2000) }
